@@ -9,4 +9,6 @@ broadcast use {vstd::std_specs::hash::group_hash_axioms, axh::axiom_uuid_key_mod
 //@include prelude/uuidtext.rs
 //@include prelude/reqwest.rs
 //@include regions/httpsrv_impl.rs
+// which backend a configuration selects (plumbing, not verified): hashed
+//@watch C08 C13 :: src/server/config.rs :: impl ServerConfig :: fn into_server
 //@include prelude/tail.rs
